@@ -42,12 +42,18 @@ def run(rep: vlib.Reporter, tier: str, seed: int) -> None:
         "gating scheduler at calculation/transform/merge entry; MULTIPROCESSING schedules are sampled, not controlled",
         "Arrow Flight is treated as a reliable key-value store"]
     big = tier == "thorough"
+    from harness import daggen
     specs, gstats = gen_specs(rng, 250 if big else 30)
+    # siblings on one framework with slow calculations: result collection overlaps later uploads in MULTIPROCESSING
+    specs += [daggen.gen_siblings(rng) for _ in range(30 if big else 5)]
     n_sched = 8 if big else 4
     n_mp = 3 if big else 1
     recs = [one_spec(s, rng, n_sched) for s in specs]
     cf_terms = [f"({cq_plan(r['plan'])}, {cq_foot(r['sync']['foot'])})" for r in recs]
     conflicted = set(vlib.run_cases("C06", "cf", REQ, "chk_cf", cf_terms, extra_defs=EXTRA, case_type="plan * foot", shard=60)[0])
+    conflicted_mp = set(vlib.run_cases("C06", "cfx", REQ, "chk_cfx", cf_terms,
+                                       extra_defs=EXTRA + "\nDefinition chk_cfx (c : plan * foot) := conflict_free_x (fst c) (snd c).\n",
+                                       case_type="plan * foot", shard=60)[0])
     gated_terms, gated_idx = [], []
     for i, r in enumerate(recs):
         for j, g in enumerate(r["gated"]):
@@ -59,7 +65,7 @@ def run(rep: vlib.Reporter, tier: str, seed: int) -> None:
     bad_gated, ginfo = vlib.run_cases("C06", "gated", REQ, "chk_gated", gated_terms,
                                       case_type="plan * (list (list nat * nat * bool) * ostatus)", shard=60) if gated_terms else ([], {})
     found = False
-    dist: Dict[str, Any] = {"specs": len(recs), "generator": gstats, "conflicted_plans": len(conflicted), "sync_ok": 0,
+    dist: Dict[str, Any] = {"specs": len(recs), "generator": gstats, "conflicted_plans": len(conflicted), "conflicted_across_objects": len(conflicted_mp), "sync_ok": 0,
                             "threading_runs": 0, "threading_diverged": 0, "mp_runs": 0, "mp_diverged": 0, "mp_same": 0,
                             "in_planner_kf": 0, "mp_kf_transform": 0}
     fs = flight_server()
@@ -99,7 +105,7 @@ def run(rep: vlib.Reporter, tier: str, seed: int) -> None:
                     rep.finding(f"threading:{key}:{sched}", what, replay)
                     found = True
         # MULTIPROCESSING (sampled)
-        for k in range(n_mp):
+        for k in range(n_mp + (2 if r["spec"].get("delay_ms") else 0)):
             dist["mp_runs"] += 1
             n_eval += 1
             m = run_observed(sess, modes={ParallelizationMode.MULTIPROCESSING}, flight_server=fs, timeout=40)
@@ -117,7 +123,7 @@ def run(rep: vlib.Reporter, tier: str, seed: int) -> None:
                 rep.finding("C06-mp-transform-from-non-arrow-source", what, replay)
             elif planner_kf:
                 rep.finding("C06-planner-defect-domains", what, replay)
-            elif i in conflicted:
+            elif i in conflicted_mp:
                 rep.finding("C06-unordered-conflicting-steps", what, replay)
             else:
                 rep.finding(f"mp:{key}", what, replay)
